@@ -118,7 +118,7 @@ def c07_edges(out, tier):
 
 def c09_edges(out, tier):
     from .checks import run_batch
-    for dn in ("B", "C", "D", "E"):
+    for dn in ("B", "C", "D", "E", "G"):
         d = gens.Dict(dn)
         if len(sorted_names(d, d.valid)) < 4:
             continue
